@@ -79,8 +79,12 @@ func NewCompiler(
 		symbolTable = NewSymbolTable()
 	}
 
-	// add builtin functions to the symbol table
+	// add builtin functions to the symbol table, except where the caller's
+	// table already binds the name to a variable (see Script.prepCompile)
 	for idx, fn := range builtinFuncs {
+		if s, ok := symbolTable.store[fn.Name]; ok && s.Scope != ScopeBuiltin {
+			continue
+		}
 		symbolTable.DefineBuiltin(idx, fn.Name)
 	}
 
